@@ -26,6 +26,11 @@ func URNFor(scheme string, k, set int, withDisplay bool) string {
 		return "whatsapp:" + strings.TrimPrefix(telSecrets[set][k%4], "+")
 	case "mailto":
 		return fmt.Sprintf("mailto:user%s@example.com", idSecrets[set][k%4])
+	case "ext":
+		// schemes without a path syntax of their own: identifiers with further colons are legal
+		return "ext:agent:" + idSecrets[set][k%4]
+	case "fcm":
+		return "fcm:" + idSecrets[set][k%4] + ":APA91b" + idSecrets[set][(k+1)%4]
 	default:
 		u := scheme + ":" + idSecrets[set][k%4]
 		if withDisplay {
@@ -67,11 +72,11 @@ func (g *G) genContacts() {
 			c.LastSeen = []string{"2025-05-31T23:59:59.999999999Z", "2019-01-01T00:00:00Z"}[t.Pick("clastseenv", 2)]
 		}
 		// URNs
-		schemes := []string{"tel", "facebook", "telegram", "mailto", "whatsapp", "tel"}
+		schemes := []string{"tel", "facebook", "telegram", "mailto", "whatsapp", "tel", "ext", "fcm"}
 		nu := t.Weighted("nurns", 1, 5, 3, 1, 1)
 		for j := 0; j < nu; j++ {
-			sc := schemes[t.Weighted("urnscheme", 5, 2, 2, 1, 1, 1)]
-			c.URNs = append(c.URNs, fmt.Sprintf("%s|%d|%v", sc, j+i*2, sc != "tel" && sc != "mailto" && sc != "whatsapp" && t.Chance("urndisplay", 1, 2)))
+			sc := schemes[t.Weighted("urnscheme", 10, 4, 4, 2, 2, 2, 1, 1)]
+			c.URNs = append(c.URNs, fmt.Sprintf("%s|%d|%v", sc, j+i*2, (sc == "facebook" || sc == "telegram") && t.Chance("urndisplay", 1, 2)))
 		}
 		// fields
 		for _, f := range s.Fields {
